@@ -369,6 +369,31 @@ pub fn parsegen(prop: &str, seed: u64, runs: usize) -> Vec<J> {
             for t in ["A", "A B", "\n\nA B Q", " A\tB ", "A B\r", "é x"] {
                 push(&mut out, prop, t, None, 0, "header without line break");
             }
+            // headers of 2..7 names in every order, with and without a repeated name (a name may appear once), and programs that
+            // declare a signal twice
+            {
+                let mut rng = StdRng::seed_from_u64(seed ^ 0x4ead);
+                let pool = ["A", "B", "C", "D", "Q", "S0", "S1", "CLK", "é", "a_out", "Z9", "x"];
+                for k in 0..120 {
+                    let n = rng.gen_range(2..8);
+                    let mut names: Vec<&str> = pool.choose_multiple(&mut rng, n).cloned().collect();
+                    if k % 5 != 0 {
+                        let from = rng.gen_range(0..names.len());
+                        let dup = names[from];
+                        let at = rng.gen_range(0..=names.len());
+                        names.insert(at, dup);
+                    }
+                    let sep = [" ", "  ", "\t"][k % 3];
+                    let row = vec!["1"; names.len()].join(" ");
+                    let decl = match k % 7 {
+                        3 => "declare V = 1;\ndeclare W = 2;\n",
+                        5 => "declare V = 1;\nlet a = 2;\ndeclare V = 2;\n",
+                        _ => "",
+                    };
+                    let t = format!("{}\n{decl}{row}\n", names.join(sep));
+                    push(&mut out, prop, &t, None, 0, "header with / without a repeated name");
+                }
+            }
             for run in 0..runs {
                 let s: u64 = top.gen();
                 let mut rng = StdRng::seed_from_u64(s);
